@@ -1430,6 +1430,24 @@ class _Percent(ast.NodeTransformer):
         return r if r is not None else n
 
 
+# -- C20: consecutive exception handlers with one body are one handler of the tuple of their types ------------------
+class _MergeHandlers(ast.NodeTransformer):
+    def visit_Try(self, node):
+        self.generic_visit(node)
+        out = []
+        for h in node.handlers:
+            prev = out[-1] if out else None
+            if prev is not None and h.type is not None and prev.type is not None and h.name == prev.name \
+                    and [ast.dump(b) for b in h.body] == [ast.dump(b) for b in prev.body]:
+                pts = list(prev.type.elts) if isinstance(prev.type, ast.Tuple) else [prev.type]
+                hts = list(h.type.elts) if isinstance(h.type, ast.Tuple) else [h.type]
+                prev.type = ast.copy_location(ast.Tuple(elts=pts + hts, ctx=ast.Load()), prev.type)
+                continue
+            out.append(h)
+        node.handlers = out
+        return node
+
+
 def canonicalize(tree):
     """In-place canonicalisation of a module (function and method bodies, nested ones included)."""
     helpers = _expr_helpers(tree)
@@ -1483,6 +1501,7 @@ def canonicalize(tree):
             if _os.environ.get('FLOWLINT_INLINE', '1') == '1':
                 _inline_pure_temps(f_)
     _Tests().visit(tree)
+    _MergeHandlers().visit(tree)
     for node in ast.walk(tree):
         if isinstance(node, (ast.FunctionDef, ast.AsyncFunctionDef)):
             node.body = _block(node.body)
